@@ -87,6 +87,10 @@ def values(depth=2, leaves=None, max_size=4):
     return st.one_of(leaves, leaves, st.lists(sub, max_size=max_size), st.dictionaries(key_strings, sub, max_size=max_size))
 
 
+from zoneinfo import ZoneInfo  # noqa: E402
+_NY = ZoneInfo('America/New_York')
+
+
 def comparison_pool():
     """The fixed pool for C11: several hundred values of all nine types (NaN excluded)."""
     d = datetime
@@ -104,6 +108,9 @@ def comparison_pool():
         # instants given with UTC offsets more than a day apart: 10:30Z, 11:30Z and 11:00Z between them
         d.datetime(2020, 1, 3, 0, 30, tzinfo=d.timezone(d.timedelta(hours=14))), d.datetime(2020, 1, 1, 23, 30, tzinfo=d.timezone(d.timedelta(hours=-12))),
         d.datetime(2020, 1, 2, 11, 0, tzinfo=d.timezone.utc),
+        # one zone object, wall-clock times inside the repeated hour of a change back from summer time (fold tells the two 01:30 apart)
+        d.datetime(2021, 11, 7, 1, 30, tzinfo=_NY, fold=1), d.datetime(2021, 11, 7, 1, 45, tzinfo=_NY), d.datetime(2021, 11, 7, 1, 30, tzinfo=_NY),
+        d.datetime(2021, 11, 7, 6, 0, tzinfo=d.timezone.utc),
     ]
     arrays = [[], [None], [0], [0.0], [1], [1.0], [1, 2], [1, 2.0], [2, 1], [1, 2, 3], [[1]], [[1.0]], [[]], [[], []], ['a'], ['a', 'b'], [True],
               [False], [None, None], [1, None], [None, 1], [d.date(2020, 1, 1)], [d.datetime(2020, 1, 1)], [{}], [{'a': 1}], [{'a': 1.0}],
